@@ -441,6 +441,144 @@ fn run_txn_history(h: &[usize]) -> HistOut {
     out
 }
 
+// ---------------------------------------------------------------------------------------------------------
+// Part L: a teardown behind transfers that wait for the window.  The peer's incoming-window is 2; the
+// application sends 2 + k pre-settled messages (every send() returns Ok: k of them are held back by the
+// session) and then closes / detaches / drops the link or ends / drops the session.  The peer reopens its
+// window afterwards.  "Transfers that must wait for the window are neither dropped ... and every one of them
+// is sent once the peer reopens the window": every message whose send() returned Ok has to reach the wire, in
+// order, and before the detach of its link / the end of its session.
+
+#[derive(Debug, Clone, Copy, PartialEq, Eq, Hash)]
+pub enum Teardown {
+    CloseLink,
+    DetachLink,
+    DropLink,
+    EndSession,
+    DropSession,
+}
+pub const TEARDOWNS: [Teardown; 5] = [Teardown::CloseLink, Teardown::DetachLink, Teardown::DropLink, Teardown::EndSession, Teardown::DropSession];
+
+pub async fn teardown_scenario(td: Teardown, k: usize) -> (Vec<(String, String)>, Vec<String>, Option<String>) {
+    let mut fails = vec![];
+    let mut auto = Auto::default();
+    auto.max_frame_size = 512;
+    auto.incoming_window = 2;
+    auto.outgoing_window = 1000;
+    auto.grant_credit = Some(100_000);
+    let mut c = match scen::open_client(auto, 512).await {
+        Ok(c) => c,
+        Err(e) => return (fails, vec![], Some(e)),
+    };
+    let mut session = match scen::begin(&mut c, Session::builder()).await {
+        Ok(s) => s,
+        Err(e) => return (fails, vec![], Some(e)),
+    };
+    let mut sender = match drive(&mut c.peer, Sender::builder().name("s1").target("q").sender_settle_mode(SenderSettleMode::Settled).attach(&mut session), scen::H).await {
+        Some(Ok(s)) => s,
+        _ => return (fails, vec![], Some("part L: attach failed".into())),
+    };
+    let lib_handle = c.peer.links.last().map(|l| l.lib_handle).unwrap_or(0);
+    settle(&mut c.peer, 2).await;
+    let total = 2 + k;
+    let mut ok_sends = 0usize;
+    for i in 0..total {
+        match drive(&mut c.peer, sender.send(format!("m{i}")), scen::H).await {
+            Some(Ok(_)) => ok_sends += 1,
+            Some(Err(e)) => return (fails, trace_to_strings(&c.peer.trace), Some(format!("part L: send {i} failed: {e}"))),
+            None => break, // a send that waits for the window is fine; it just was not accepted yet
+        }
+    }
+    settle(&mut c.peer, 2).await;
+    let on_wire_before = lib_transfer_frames(&c.peer.trace, lib_handle).len();
+    if on_wire_before != 2 {
+        return (fails, trace_to_strings(&c.peer.trace), Some(format!("part L: {on_wire_before} transfers on the wire with a window of 2 (expected 2)")));
+    }
+    // the teardown runs as a task: it may rightly have to wait until the window reopens
+    let task = tokio::spawn(async move {
+        match td {
+            Teardown::CloseLink => format!("{:?}", sender.close().await.map_err(|e| e.to_string())),
+            Teardown::DetachLink => format!("{:?}", sender.detach().await.map(|_| ()).map_err(|(_, e)| e.to_string())),
+            Teardown::DropLink => {
+                drop(sender);
+                "dropped".to_string()
+            }
+            Teardown::EndSession => {
+                let r = format!("{:?}", session.end().await.map_err(|e| e.to_string()));
+                drop(sender);
+                r
+            }
+            Teardown::DropSession => {
+                drop(session);
+                drop(sender);
+                "dropped".to_string()
+            }
+        }
+    });
+    settle(&mut c.peer, 4).await;
+    // the peer reopens its window (it has received what it has received)
+    let mut f = c.peer.flow_for(0);
+    f.incoming_window = 10_000;
+    c.peer.send(0, Performative::Flow(f));
+    settle(&mut c.peer, 6).await;
+    let teardown_result = if task.is_finished() { task.await.unwrap_or_else(|e| format!("task died: {e}")) } else { "still pending".to_string() };
+    // what reached the wire, in order
+    let mut bodies: Vec<String> = vec![];
+    let mut after_teardown = 0usize;
+    let mut torn = false;
+    for w in c.peer.trace.iter().filter(|w| w.dir == Dirn::FromLib) {
+        match &w.body {
+            Body::Perf(Performative::Transfer(t)) if t.handle.0 == lib_handle => {
+                if torn {
+                    after_teardown += 1;
+                }
+                bodies.push(String::from_utf8_lossy(&w.payload).chars().filter(|ch| ch.is_ascii_alphanumeric()).collect::<String>());
+            }
+            Body::Perf(Performative::Detach(d)) if d.handle.0 == lib_handle => torn = true,
+            Body::Perf(Performative::End(_)) => torn = true,
+            _ => {}
+        }
+    }
+    let arrived = bodies.len() - after_teardown;
+    let what = format!("{:?} with {k} transfer(s) held back by the session window (peer's incoming-window 2, {ok_sends} pre-settled sends returned Ok; teardown -> {teardown_result})", td);
+    if after_teardown > 0 {
+        fails.push((
+            format!("transfer-after-teardown ({:?} overtook transfers held back by the window)", td),
+            format!("{what}: {after_teardown} transfer frame(s) of the link were written AFTER its detach / the session's end"),
+        ));
+    }
+    if arrived < ok_sends {
+        fails.push((
+            format!("message-lost ({:?} overtook transfers held back by the window)", td),
+            format!("{what}: only {arrived} of the {ok_sends} messages whose send() returned Ok were written before the detach / end, although the peer reopened its window; bodies on the wire {:?}", bodies),
+        ));
+    }
+    (fails, trace_to_strings(&c.peer.trace), None)
+}
+
+fn part_l(out: &mut Outcome) -> u64 {
+    let mut n = 0;
+    for td in TEARDOWNS {
+        for k in 1..=3usize {
+            let scen: Scenario<(Vec<(String, String)>, Vec<String>, Option<String>)> = Arc::new(move || Box::pin(teardown_scenario(td, k)));
+            let ex = run_exec(vec![], &RunCfg::none(), &scen);
+            n += 1;
+            match ex.out {
+                Some((fails, trace, mach)) => {
+                    if let Some(m) = mach {
+                        out.machinery_errors.push(m);
+                    }
+                    for (s, d) in fails {
+                        out.violation(s, d, json!({"part": "L", "teardown": format!("{:?}", td), "k": k, "trace": trace}));
+                    }
+                }
+                None => out.machinery_errors.push(format!("part L {td:?} k={k} died: {:?}", ex.panics)),
+            }
+        }
+    }
+    n
+}
+
 pub fn run(ctx: &Ctx) -> Outcome {
     let mut out = Outcome::new("model_checking");
     if let Some(p) = &ctx.replay {
@@ -507,6 +645,8 @@ pub fn run(ctx: &Ctx) -> Outcome {
         out.violation(sig, format!("history {:?}: {detail}", evs), json!({"part": "T", "events": h, "event_names": evs, "trace": trace}));
     }
     out.set("txn_listener_histories_executed", st.executions);
+    let n_l = part_l(&mut out);
+    out.set("teardown_behind_parked_transfers_cases", n_l);
     let t_note = format!("; part T (listener with transactions, scripted client): histories of depth {t_depth} over {} events, the session state probed after every event", T_ALPHABET.len());
     out.set("states", states.max(1));
     out.set("transitions", transitions.max(1));
